@@ -75,6 +75,30 @@ def build():
             'gA == anyA(pols, mode, i)', 'gD == anyD(pols, mode, i)',
             'gA == exists(0, len(allow), lambda k: holds(allow[k]))', 'gD == exists(0, len(deny), lambda k: holds(deny[k]))'])},
         hints=dict(ghost_out=['gA', 'gD'], var_types={'allow': 'Seq[Obj]', 'deny': 'Seq[Obj]', 'pols': 'Seq[Pol]'}))
+
+    # F4  has_own_policies: does the type or any descendant carry a policy that is not inherited from `skip_from`?  (it decides whether a read of an
+    #     ancestor goes through the plain inheritance view or is expanded so that the descendant's policy filter is applied)
+    # spec: HOP(t, skip) is the recursive predicate  LOCAL(t, skip) or some child c of t has HOP(c, t),  LOCAL(t, skip) = some policy p of t none of
+    #       whose bases has subject `skip`.  The recursion of the real function is the induction: its contract is assumed at the recursive calls.
+    w.refclass('TypeT', {}, universal=True); w.refclass('PolColl', {})
+    w.ufunc('POLS', ['TypeT'], 'Seq[Pol]'); w.ufunc('CH', ['TypeT'], 'Seq[TypeT]'); w.ufunc('BASES', ['Pol'], 'Seq[Pol]'); w.ufunc('SUBJ', ['Pol'], 'Opt[TypeT]')
+    w.ufunc('COLL', ['PolColl'], 'Seq[Pol]'); w.ufunc('HOP', ['TypeT', 'Opt[TypeT]'], 'bool')
+    w.trusted.append('schema accessors of has_own_policies are uninterpreted functions of the (fixed) schema: POLS(t) = get_access_policies(t), CH(t) = t.children(), BASES(p), SUBJ(p)')
+    w.ufunc('LOCALP', ['Pol', 'Opt[TypeT]'], 'bool')
+    w.define('LOCALP_def(p, skip)', 'LOCALP(p, skip) == forall(0, len(BASES(p)), lambda b: skip != SUBJ(seq_get(BASES(p), b)))')
+    w.define('HOP_def(t, skip)', 'HOP(t, skip) == (exists(0, len(POLS(t)), lambda k: LOCALP(seq_get(POLS(t), k), skip)) or exists(0, len(CH(t)), lambda c: HOP(seq_get(CH(t), c), t)))')
+    w.definitional |= {'HOP_def', 'LOCALP_def'}
+    HOPX = dict(hints=None)
+    w.contract(POL, 'has_own_policies', params={'stype': 'TypeT', 'skip_from': 'Opt[TypeT]', 'ctx': 'Ctx'}, returns='bool', pure=True,
+        ensures=['result == HOP(stype, skip_from)'],
+        loops={0: dict(fingerprint='for pol in get_access_policies(stype, ctx=ctx)', index='i', lemmas=['LOCALP_def(seq_get(POLS(stype), i), skip_from)'],
+                       invariant=['forall(0, i, lambda k: not LOCALP(seq_get(POLS(stype), k), skip_from))'])},
+        hints={'lemmas': ['HOP_def(stype, skip_from)'],
+               'ext_funcs': {'get_access_policies': dict(params={'stype': 'TypeT', 'ctx': 'Ctx'}, returns='Seq[Pol]', ensures=['result == POLS(stype)'])}})
+    w.ext_methods['TypeT.children'] = dict(params={'schema': 'Obj'}, returns='Seq[TypeT]', ensures=['result == CH(self)'])
+    w.ext_methods['Pol.get_bases'] = dict(params={'schema': 'Obj'}, returns='PolColl', ensures=['COLL(result) == BASES(self)'])
+    w.ext_methods['PolColl.objects'] = dict(params={'schema': 'Obj'}, returns='Seq[Pol]', ensures=['result == COLL(self)'])
+    w.ext_methods['Pol.get_subject'] = dict(params={'schema': 'Obj'}, returns='Opt[TypeT]', ensures=['result == SUBJ(self)'])
     return w
 
 # ---------------------------------------------------------------------------------------------------------------------
